@@ -97,6 +97,23 @@ class KeyedArrayCheck:
 			slot[1] = str(palette[choice % len(palette)])
 		return element
 
+	def swap_keys(self, first, second):
+		"""Swaps the key members of two entry objects in place (for a key with a comparer: the compared members of the key object)."""
+		key_attr = codec.fix_name(self.key)
+		key_field = next(field for field in self.net.types[self.elem]['fields'] if field['name'] == self.key)
+		kind = key_field['kind']
+		if 'ref' == kind['k'] and 'struct' == self.net.types[kind['ty']]['k'] and self.net.types[kind['ty']]['comparer']:
+			inner_first, inner_second = getattr(first, key_attr), getattr(second, key_attr)
+			for name, _ in self.net.types[kind['ty']]['comparer']:
+				attribute = codec.fix_name(name)
+				value_first, value_second = getattr(inner_first, attribute), getattr(inner_second, attribute)
+				setattr(inner_first, attribute, value_second)
+				setattr(inner_second, attribute, value_first)
+		else:
+			value_first, value_second = getattr(first, key_attr), getattr(second, key_attr)
+			setattr(first, key_attr, value_second)
+			setattr(second, key_attr, value_first)
+
 	def run(self, multisets, max_length):
 		# pylint: disable=too-many-locals,too-many-branches,too-many-statements
 		ctx, net, rng = self.ctx, self.net, self.ctx.rng
@@ -160,6 +177,35 @@ class KeyedArrayCheck:
 				lines += [f'sort {net.name} {self.type_name} {text}', f'enc {net.name} {self.type_name} {text}']
 				records.append(('sort', codec.dumps(result), ident))
 				records.append(('enc', f'ok {data.hex().upper()}' if data is not None else 'err', ident))
+
+			# history on one object: keys are evaluated (sort), two entries are then re-keyed IN PLACE (their key members swapped,
+			# the entry objects stay the same), and the array is serialized / sorted again - nothing remembered from the first
+			# evaluation may survive the edit
+			if distinct and length >= 2:
+				value = json.loads(json.dumps(base))
+				value['f'][position][1] = [elements[index] for index in sorted_order]
+				obj = net.to_obj(self.type_name, value)
+				obj.sort()
+				bytes(obj.serialize())
+				entries = getattr(obj, codec.fix_name(self.field['name']))
+				first, second = entries[0], entries[-1]
+				self.swap_keys(first, second)
+				ident = {'network': net.name, 'type': self.type_name, 'member': self.field['name'], 'history': 'sort, serialize, swap the keys of the first and last entry in place'}
+				ctx.count('history:rekey-in-place')
+				try:
+					bytes(obj.serialize())
+					ctx.fail('property', f'{label}: serialize() accepts an array that went out of order by an in-place edit of its entries', ident)
+				except Exception:  # pylint: disable=broad-except
+					pass
+				obj.sort()
+				after = net.to_wire(self.type_name, obj)['f'][position][1]
+				after_keys = [self.gen.sort_key(self.elem, self.key, element) for element in after]
+				if after_keys != sorted(after_keys):
+					ctx.fail('property', f'{label}: sort() after an in-place edit of the entries leaves the array out of order', dict(ident, keys=[repr(key) for key in after_keys]))
+				try:
+					bytes(obj.serialize())
+				except Exception as ex:  # pylint: disable=broad-except
+					ctx.fail('property', f'{label}: serialize() refuses the array sorted after an in-place edit ({type(ex).__name__})', ident)
 
 			if distinct and 1 != len(sorted_results):
 				ctx.fail('property', f'{label}: sort() result depends on the initial order', {'network': net.name, 'type': self.type_name, 'keys': [repr(key) for key in keys]})
